@@ -10,6 +10,10 @@ Decided (engine E/D2 on metadata::update_file and its helpers):
   C10.dir       new < old  => padding grown by (old - new); new > old => padding shrunk by (new - old); equal => untouched
   C10.flag      false is attached only to in-place writes, true only to the rebuild
   C10.size      sizes compared are byte counts of the same serialisation: old measured while reading, new from write_blocks
+  C10.inv       every construction of BlockSize / BlockBits is bounded by the 24-bit limit (checked_add refuses larger sums:
+                grow_padding then falls back to a rebuild instead of writing an unrepresentable size)
+  C10.open      the path front-end opens the original read+write without truncation and the rebuilt file truncated
+  (C10.size also requires BlockList::blocks() and into_iter() to yield every block: the measured and the written sequence agree)
 Not decided: byte-for-byte equality of the audio region after the update.
 """
 from rules.common import *
